@@ -1,6 +1,7 @@
 import HpackVerif.Props.Common
 import HpackVerif.Proofs.Cost
 import HpackVerif.Proofs.CostLoop
+import HpackVerif.Proofs.CostFine
 import HpackVerif.Proofs.IntExtra
 /-! # C16 — Decoder work grows at most linearly with the size of the block  (partial: work model)
 
@@ -55,6 +56,14 @@ theorem decode_work_linear (st : DecState) (h : Props.DecReach st) (data : Bytes
     decodeCost Props.capN true st data ≤
       (fieldOverhead Props.capN + 2) * data.length + st.table.entries.length + st.listLimit + 1 :=
   decodeCost_linear (own := true) Props.capN Props.capOK st (Props.decReach_inv h) data
+
+/-- the per-iteration charge used above is not an assumption about integers: it bounds a finer model of one
+    iteration (`fineFieldCost`) in which every prefix integer is charged by the per-octet model of
+    `decode_integer` (`decodeIntCost`, with bigint limb work), every string by its length integer plus one unit
+    per payload octet present, every table operation by one unit plus the entries popped -/
+theorem iteration_charge_bounds_fine_model (st : DecState) (h : Props.DecReach st) (data : Bytes) (hne : data ≠ []) (seen : Bool) :
+    fineFieldCost Props.capN true st data seen ≤ fieldCost Props.capN true st data seen :=
+  fine_le_coarse (own := true) Props.capN Props.capOK st (Props.decReach_inv h) data hne seen
 
 /-- the table term is itself bounded by the table size -/
 theorem entries_bounded (st : DecState) (h : Props.DecReach st) : 32 * st.table.entries.length ≤ st.table.maxsize :=
